@@ -33,6 +33,8 @@
 #include "node.h"
 #include "collection.h"
 #include "layout.h"
+#include "config.h"
+#include <poll.h>
 #include "mc.hpp"
 
 using namespace mc;
@@ -87,9 +89,9 @@ struct SendState { int calls; bool fail; };
 static int send_cb(void *ptr, const mpt::reply_data *, const mpt::message *) { SendState *s = (SendState *) ptr; ++s->calls; return s->fail ? -1 : 0; }
 
 // ---------------------------------------------------------------- object world shared by both systems
-enum Kind { K_BUF, K_REFBUF, K_CNT, K_GENINFO, K_METABUF, K_REPLY, K_RAW, K_GENI, K_GENR, K_CXX, K_STREAM, K_IOBUF, K_NODE, K_GROUP, NKIND };
-static const char *kname[] = { "buffer", "refbuffer", "counting", "geninfo", "metabuffer", "reply", "rawdata", "generic", "generic-ref", "cxxtype", "stream", "iobuffer", "node", "item-group" };
-static bool kcountable(int k) { return k != K_GENINFO && k != K_METABUF && k != K_NODE && k != K_GROUP; }
+enum Kind { K_BUF, K_REFBUF, K_CNT, K_GENINFO, K_METABUF, K_REPLY, K_RAW, K_GENI, K_GENR, K_CXX, K_STREAM, K_IOBUF, K_NODE, K_GROUP, K_RARR, NKIND };
+static const char *kname[] = { "buffer", "refbuffer", "counting", "geninfo", "metabuffer", "reply", "rawdata", "generic", "generic-ref", "cxxtype", "stream", "iobuffer", "node", "item-group", "reference_array" };
+static bool kcountable(int k) { return k != K_GENINFO && k != K_METABUF && k != K_NODE && k != K_GROUP && k != K_RARR; }
 static bool kpokeable(int k) { return kcountable(k) && k != K_REFBUF && k != K_GENR && k != K_IOBUF; }
 // counter word(s) of a reply context relative to its metatype pointer, lowest address first (located by the probe: the implementation
 // may count all holders in one word, or keep a second word for the metatype references only; every word moves with a metatype reference)
@@ -129,11 +131,12 @@ struct World {
 	std::string sig;
 	std::vector<int> hist; std::string (*namer)(int); const char *dstep; int darg;   // failure descriptions are built lazily from the history
 	bool bad, nontrivial;
+	bool loose;   // a container copy shares its element storage: counts of the elements are not comparable with the logical holders any more
 	std::vector<CountMeta *> owned; std::vector<int *> flags; std::vector<int> fds;
 	static unsigned nsys;
 	size_t base;   // tracked blocks alive before this system allocated anything
 
-	World(Run &run) : r(run), bad(false), nontrivial(false)
+	World(Run &run) : r(run), bad(false), nontrivial(false), loose(false)
 	{
 		asan_init();
 		if (!(++nsys & 255)) ledger_reset();   // no tracked object is alive between two systems
@@ -231,7 +234,7 @@ struct World {
 			if (b.cm && b.cm->after) return fail("call-after-destroy", oname(o) + " received a call after its count had reached zero");
 			if (!b.dead && !live) return fail("premature-destroy", oname(o) + " was destroyed although the model still holds " + cstr(o) + " reference(s)");
 			if (b.dead && live) return fail("leak", oname(o) + " is still alive although its last reference was dropped");
-			if (b.cm && !b.dead && b.cm->cnt != count(o)) return fail("miscount", oname(o) + fmt(" counted %llu references, the model holds ", (unsigned long long) b.cm->cnt) + cstr(o));
+			if (b.cm && !b.dead && !loose && b.cm->cnt != count(o)) return fail("miscount", oname(o) + fmt(" counted %llu references, the model holds ", (unsigned long long) b.cm->cnt) + cstr(o));
 			if (b.dtor && (*b.dtor != (b.dead ? 1 : 0))) return fail(b.dead ? "leak" : "premature-destroy", oname(o) + fmt(" destructor ran %d time(s)", *b.dtor));
 			if (b.fd0 >= 0 && b.dead) { if (fcntl(b.fd0, F_GETFD) != -1) return fail("leak", oname(o) + " descriptor still open after the last reference was dropped"); objs[o].fd0 = -1; }
 			if (b.fd0 >= 0 && !b.dead && fcntl(b.fd0, F_GETFD) == -1) return fail("premature-destroy", oname(o) + " descriptor closed while references remain");
@@ -255,7 +258,7 @@ struct World {
 };
 unsigned World::nsys = 0;
 
-struct Counters { uint64_t nontrivial, refused, limit, replaced, shared_op, destroyed, nonclonable, cleared, spurious, drained, refused_shared, traits_mismatch, reply_checked, group_items, quiescent; };
+struct Counters { uint64_t nontrivial, refused, limit, replaced, shared_op, destroyed, nonclonable, cleared, spurious, drained, refused_shared, traits_mismatch, reply_checked, group_items, quiescent, container_copies, next_handles, config_added, config_refused; };
 static Counters C;   // only the last operation of a transition counts: the BFS restores the snapshot after replaying a prefix
 
 // ---------------------------------------------------------------- job configuration
@@ -263,7 +266,7 @@ struct OpDef { int code, a, b, c; };
 struct Cfg {
 	std::string name;
 	std::vector<int> kinds;
-	bool conv, cxx, traits, clone, reply, refbuf, genconv, inref, group, rdops;
+	bool conv, cxx, traits, clone, reply, refbuf, genconv, inref, group, rdops, rarr, notify;
 	int nslots, cap, rawcap, depth;
 	std::vector<OpDef> ops;
 };
@@ -525,11 +528,14 @@ struct BufSys : World {
 // ================================================================= metatype references
 enum { M_NEW, M_CONVREF, M_CONVPTR, M_CONVNULL, M_GENCONV, M_CXXASSIGN, M_CXXMOVE, M_CXXCOPY, M_CXXSET, M_CXXDETACH, M_CXXDTOR, M_RINIT, M_RFINI,
        M_ADDREF, M_UNREFRAW, M_CLONE, M_ARM, M_DEFER, M_DREPLY, M_RBPUT, M_RBCLONE, M_RBCLEAR, M_RBDETACH,
-       M_CREPLY, M_RDADVANCE, M_RDMODIFY, M_NODEASSIGN, M_NODESET, M_NODEDROP, M_ADDITEMS, M_GRPAPPEND, M_GRPCLEAR, M_GRPDROP };
+       M_CREPLY, M_RDADVANCE, M_RDMODIFY, M_NODEASSIGN, M_NODESET, M_NODEDROP, M_ADDITEMS, M_GRPAPPEND, M_GRPCLEAR, M_GRPDROP,
+       M_GRPCLONE, M_GRPCLEARREF, M_RAINSERT, M_RACOPY, M_RASET, M_RACLEAR, M_RACLEARREF, M_RACOMPACT, M_RADROP, M_NADD, M_NCLEAR, M_NWAIT, M_NNEXT, M_NCONFIG, M_NFINI };
 static const char *mopn[] = { "new", "value_convert(MetaRef->MetaRef)", "value_convert(MetaPtr->MetaRef)", "value_convert(MetaRef->MetaRef,NULL)", "generic.convert(MetaRef)",
        "reference::operator=", "reference::operator=(&&)", "reference(const reference&)", "reference::set_instance", "reference::detach", "~reference", "reference_traits.init", "reference_traits.fini",
        "addref", "unref", "clone", "reply_set", "defer", "deferred.reply", "refarray.set", "refarray.clone", "refarray.clone(NULL)", "refarray.detach",
-       "context.reply", "rawdata.advance", "rawdata.modify", "node=reference", "node.set_metatype", "node_destroy", "add_items(group,node)", "group.append", "group.clear", "group.unref" };
+       "context.reply", "rawdata.advance", "rawdata.modify", "node=reference", "node.set_metatype", "node_destroy", "add_items(group,node)", "group.append", "group.clear", "group.unref",
+       "group.clone", "group.clear(item)", "refarray<T>.insert", "refarray<T>(copy)", "refarray<T>.set", "refarray<T>.clear", "refarray<T>.clear(item)", "refarray<T>.compact", "~refarray<T>",
+       "notify_add", "notify_clear", "notify_wait", "notify_next", "notify_config", "notify_fini" };
 
 struct Deferred { mpt::reply_context_detached *h; const void *block; int ctx; bool live; };
 
@@ -539,8 +545,12 @@ struct MetaSys : World {
 	std::vector<Deferred> defs;
 	SendState send;
 	int nodeo, grpo;   // library containers of metatype references (object indices, -1: not created yet)
-	MetaSys(Run &run) : World(run), created(0), nodeo(-1), grpo(-1)
+	int grp2o, rao[2];
+	typedef mpt::reference_array<metatype> RArr;
+	mpt::notify *no; std::vector<int> nreg; std::vector<int> nfd;   // notifier, registered inputs (object index, descriptor)
+	MetaSys(Run &run) : World(run), created(0), nodeo(-1), grpo(-1), grp2o(-1), no(0)
 	{
+		rao[0] = rao[1] = -1;
 		namer = &MetaSys::opname;
 		for (int i = 0; i < 3; ++i) { sl[i] = 0; so[i] = -1; }
 		for (int i = 0; i < 2; ++i) { rb[i]._buf = 0; rbo[i] = -1; }
@@ -552,6 +562,24 @@ struct MetaSys : World {
 		const OpDef &d = cfg.ops[i];
 		if (d.code == M_NEW) return fmt("new %s%s -> slot %d", kname[d.b], d.c == 1 ? "(count=MAX-1)" : (d.c == 2 ? "(count=2^32+1)" : ""), d.a);
 		return fmt("%s(%d,%d)", mopn[d.code], d.a, d.b);
+	}
+	~MetaSys() { if (no) delete no; }
+	int grpidx(int g) const { return g ? grp2o : grpo; }
+	mpt::item_group *grpp(int o) const { return static_cast<mpt::item_group *>((metatype *) objs[o].ptr); }
+	RArr *rap(int a) const { return (RArr *) objs[rao[a]].ptr; }
+	bool holdsobj(int c, int o) const { for (int e : objs[c].holds) if (e == o) return true; return false; }
+	bool registered(int o) const { for (int e : nreg) if (e == o) return true; return false; }
+	void drop_holds(int c, int only) { std::vector<int> keep, gone; for (int e : objs[c].holds) ((only < 0 || e == only) ? gone : keep).push_back(e); objs[c].holds = keep; for (int e : gone) if (e >= 0) release(e); }
+	std::string pending() const
+	{
+		std::string t;
+		mpt::buffer *w = no ? *(mpt::buffer **) &no->_wait : 0;
+		if (w) for (size_t i = 0; i < w->_used / sizeof(void *); ++i) {
+			void *p = ((void **) (w + 1))[i]; int who = -2;
+			if (!p) who = -1; else for (size_t o = 0; o < objs.size(); ++o) if (!objs[o].dead && objs[o].ptr == p) who = (int) o;
+			t += fmt("%d,", who);
+		}
+		return t;
 	}
 	const mpt::type_traits *reftraits() const { return cfg.inref ? mpt::mpt_input_reference_traits() : mpt::mpt_meta_reference_traits(); }
 	mpt::rawdata *rawif(int o) const { return (mpt::rawdata *) ((char *) objs[o].ptr + sizeof(void *)); }   // RawData { _mt, _rd, ... }
@@ -589,7 +617,19 @@ struct MetaSys : World {
 		case M_NODEDROP: return usable(nodeo);
 		case M_ADDITEMS: return usable(nodeo) && (grpo < 0 || (!objs[grpo].dead && objs[grpo].holds.size() < 2));
 		case M_GRPAPPEND: return (grpo < 0 || (!objs[grpo].dead && objs[grpo].holds.size() < 2)) && s < (int) objs.size() && !objs[s].dead && objs[s].raw > 0 && objs[s].kind >= K_CNT;
-		case M_GRPCLEAR: case M_GRPDROP: return usable(grpo);
+		case M_GRPCLEAR: case M_GRPDROP: return usable(grpidx(s));
+		case M_GRPCLONE: return usable(grpo) && grp2o < 0;
+		case M_GRPCLEARREF: return usable(grpidx(s)) && t < (int) objs.size() && holdsobj(grpidx(s), t);
+		case M_RAINSERT: return (rao[0] < 0 || (!objs[rao[0]].dead && objs[rao[0]].holds.size() < 2)) && s < (int) objs.size() && !objs[s].dead && objs[s].raw > 0 && objs[s].kind >= K_CNT;
+		case M_RACOPY: return usable(rao[0]) && rao[1] < 0;
+		case M_RASET: return usable(rao[s]) && !objs[rao[s]].holds.empty() && t < (int) objs.size() && !objs[t].dead && objs[t].raw > 0 && objs[t].kind >= K_CNT;
+		case M_RACLEAR: case M_RACOMPACT: case M_RADROP: return usable(rao[s]);
+		case M_RACLEARREF: return usable(rao[s]) && t < (int) objs.size() && holdsobj(rao[s], t);
+		case M_NADD: return s < (int) objs.size() && !objs[s].dead && objs[s].kind == K_STREAM && objs[s].raw > 0 && !registered(s);
+		case M_NCLEAR: return s < (int) objs.size() && registered(s);
+		case M_NWAIT: return !nreg.empty();
+		case M_NNEXT: case M_NFINI: return no != 0;
+		case M_NCONFIG: return so[s] >= 0 && objs[so[s]].kind == K_STREAM;
 		}
 		return false;
 	}
@@ -608,7 +648,10 @@ struct MetaSys : World {
 		}
 		for (size_t i = 0; i < defs.size(); ++i) s += defs[i].live ? fmt("d%zu=%d ", i, defs[i].ctx) : fmt("d%zu=- ", i);
 		if (cfg.refbuf) s += fmt("rb=%d,%d nb=%d ", rbo[0], rbo[1], nbufs());
-		if (cfg.group) s += fmt("node=%d grp=%d ", nodeo, grpo);
+		if (cfg.group) s += fmt("node=%d grp=%d,%d ", nodeo, grpo, grp2o);
+		if (cfg.rarr) s += fmt("ra=%d,%d ", rao[0], rao[1]);
+		if (cfg.group || cfg.rarr) s += loose ? "shared-storage " : "";
+		if (cfg.notify) { s += "reg="; for (int e : nreg) s += fmt("%d,", e); s += " pending=" + pending() + " "; }
 		s += fmt("created=%d", created);
 		return s;
 	}
@@ -646,7 +689,7 @@ struct MetaSys : World {
 	// "releases the old referent once and retains the new one once"
 	bool once(int old, int nw, Calls co, Calls cn)
 	{
-		if (old == nw) return true;
+		if (old == nw || loose) return true;
 		// expected numbers come from the model (1 addref for the new, 1 unref for the old referent, plus what objects destroyed by the release drop themselves)
 		if (nw >= 0 && objs[nw].cm) { Calls c = calls(nw); if (c.a - cn.a != c.ma - cn.ma || c.u - cn.u != c.mu - cn.mu) return fail("retain-count", fmt("new referent %s saw %u addref / %u unref calls, expected %u / %u", oname(nw).c_str(), c.a - cn.a, c.u - cn.u, c.ma - cn.ma, c.mu - cn.mu)); }
 		if (old >= 0 && objs[old].cm) { Calls c = calls(old); if (c.a - co.a != c.ma - co.ma || c.u - co.u != c.mu - co.mu) return fail("release-count", fmt("old referent %s saw %u addref / %u unref calls, expected %u / %u", oname(old).c_str(), c.a - co.a, c.u - co.u, c.ma - co.ma, c.mu - co.mu)); }
@@ -1044,16 +1087,125 @@ struct MetaSys : World {
 			}
 			break; }
 		case M_GRPCLEAR: {
-			sig = "group.clear|items";
-			mpt::item_group *g = static_cast<mpt::item_group *>((metatype *) objs[grpo].ptr);
-			LIB(g->clear(0));
-			std::vector<int> h; h.swap(objs[grpo].holds);
-			for (int e : h) if (e >= 0) release(e);
+			int c = grpidx(s);
+			sig = std::string("group.clear|") + (s ? "clone" : "original");
+			LIB(grpp(c)->clear(0));
+			drop_holds(c, -1);
 			break; }
 		case M_GRPDROP: {
-			sig = "group.unref|items";
-			LIB((((metatype *) objs[grpo].ptr)->unref(), 0));
-			release(grpo);
+			int c = grpidx(s);
+			sig = std::string("group.unref|") + (s ? "clone" : "original");
+			LIB((((metatype *) objs[c].ptr)->unref(), 0));
+			release(c);
+			break; }
+		case M_GRPCLONE: {
+			sig = "group.clone|items";
+			mpt::item_group *g = grpp(grpo), *c = LIB(g->clone());
+			if (!c) { ++C.spurious; break; }
+			grp2o = add(K_GROUP, static_cast<metatype *>(c), find_block(c));
+			// the copy is a second holder of every item, however the implementation stores that
+			if (c->items().size() && c->items().begin() == g->items().begin()) loose = true;
+			for (int e : objs[grpo].holds) { if (e >= 0) retain(e); objs[grp2o].holds.push_back(e); }
+			++C.container_copies; nontrivial = true;
+			break; }
+		case M_GRPCLEARREF: {
+			int c = grpidx(s);
+			sig = std::string("group.clear-item|") + (s ? "clone" : "original") + (grp2o >= 0 && !objs[grp2o].dead && !objs[grpo].dead ? ",copied" : ",single");
+			size_t n = LIB(grpp(c)->clear((metatype *) objs[t].ptr));
+			if (n) drop_holds(c, t); else ++C.spurious;   // a refusal (shared storage) changes nothing
+			break; }
+		case M_RAINSERT: {
+			sig = "refarray<T>.insert|raw-reference";
+			if (rao[0] < 0) { RArr *a = LIB(new RArr); rao[0] = add(K_RARR, a, find_block(a)); }
+			if (!LIB(rap(0)->insert((long) objs[rao[0]].holds.size(), (metatype *) objs[s].ptr))) { ++C.spurious; break; }
+			--objs[s].raw; objs[rao[0]].holds.push_back(s); ++C.group_items;
+			break; }
+		case M_RACOPY: {
+			sig = "refarray<T>.copy|items";
+			RArr *c = LIB(new RArr(*rap(0)));
+			rao[1] = add(K_RARR, c, find_block(c));
+			if (c->length() && c->begin() == rap(0)->begin()) loose = true;
+			for (int e : objs[rao[0]].holds) { if (e >= 0) retain(e); objs[rao[1]].holds.push_back(e); }
+			++C.container_copies; nontrivial = true;
+			break; }
+		case M_RASET: {
+			int c = rao[s], old = objs[c].holds[0];
+			bool copied = usable(rao[0]) && usable(rao[1]);
+			sig = std::string("refarray<T>.set|") + (s ? "copy" : "original") + (copied ? ",copied" : ",single");
+			if (!LIB(rap(s)->set(0, (metatype *) objs[t].ptr))) { ++C.spurious; break; }   // refused (shared storage): caller keeps its reference
+			--objs[t].raw; objs[c].holds[0] = t;
+			if (old >= 0) { release(old); ++C.replaced; }
+			break; }
+		case M_RACLEAR: case M_RACLEARREF: {
+			int c = rao[s];
+			bool copied = usable(rao[0]) && usable(rao[1]);
+			sig = std::string(d.code == M_RACLEAR ? "refarray<T>.clear|" : "refarray<T>.clear-item|") + (s ? "copy" : "original") + (copied ? ",copied" : ",single");
+			long n = LIB(rap(s)->clear(d.code == M_RACLEAR ? 0 : (metatype *) objs[t].ptr));
+			if (n > 0) { std::vector<int> h = objs[c].holds; for (int &e : objs[c].holds) if (e >= 0 && (d.code == M_RACLEAR || e == t)) { int x = e; e = -1; release(x); } }
+			else ++C.spurious;
+			break; }
+		case M_RACOMPACT: {
+			sig = std::string("refarray<T>.compact|") + (s ? "copy" : "original");
+			LIB((rap(s)->compact(), 0));
+			break; }
+		case M_RADROP: {
+			sig = std::string("refarray<T>.destroy|") + (s ? "copy" : "original");
+			LIB((delete rap(s), 0));
+			release(rao[s]);
+			break; }
+		case M_NADD: {
+			sig = "notify_add|stream";
+			if (!no) no = new mpt::notify;
+			if (LIB(mpt::mpt_notify_add(no, POLLIN, (mpt::input *) objs[s].ptr)) < 0) { ++C.spurious; break; }
+			--objs[s].raw; nreg.push_back(s); nfd.push_back(objs[s].fd0);   // the notifier took over the caller's reference
+			break; }
+		case M_NCLEAR: {
+			sig = std::string("notify_clear|") + (pending().find(fmt("%d,", s)) != std::string::npos ? "pending" : "idle");
+			size_t k = 0; while (nreg[k] != s) ++k;
+			LIB(mpt::mpt_notify_clear(no, nfd[k]));
+			nreg.erase(nreg.begin() + k); nfd.erase(nfd.begin() + k);
+			release(s);
+			break; }
+		case M_NWAIT: {
+			sig = "notify_wait|registered";
+			for (int e : nreg) if (!objs[e].armed) { char c = 0; if (write(objs[e].fd1, &c, 1) == 1) objs[e].armed = true; }   // peer sends one byte per input, once
+			LIB(mpt::mpt_notify_wait(no, POLLIN, 0));
+			break; }
+		case M_NNEXT: {
+			sig = "notify_next|pending";
+			mpt::input *p = LIB(mpt::mpt_notify_next(no));
+			if (p) {
+				++C.next_handles; nontrivial = true;
+				bool live = false;
+				for (size_t o = 0; o < objs.size(); ++o) if (!objs[o].dead && objs[o].ptr == (void *) p) live = true;
+				if (!live) return fail("dangling-handle", "mpt_notify_next handed out an input that was destroyed when the notifier dropped its (last) reference");
+			}
+			break; }
+		case M_NCONFIG: {
+			int o = so[s];
+			sig = std::string("notify_config|") + (registered(o) ? "already-registered" : "new-input");
+			if (!no) no = new mpt::notify;
+			// global configuration element "mpt.connect" refers to the input for the duration of the call (borrowed, restored afterwards)
+			mpt::path p; p.set("mpt.connect");
+			metatype *ce = LIB(mpt::mpt_config_global(&p));
+			mpt::node *n = 0;
+			if (!ce || LIB(ce->convert(mpt::TypeNodePtr, &n)) < 0 || !n) { if (ce) LIB((ce->unref(), 0)); r.incomplete("global configuration element not available"); return false; }
+			LIB((ce->unref(), 0));
+			metatype *keep = n->_meta;
+			n->_meta = (metatype *) objs[o].ptr;
+			size_t used = no->_fdused;
+			int cret = LIB(mpt::mpt_notify_config(no, 0));
+			n->_meta = keep;
+			r.note("  mpt_notify_config -> %d, inputs %zu -> %zu", cret, used, (size_t) no->_fdused);
+			if (no->_fdused == used + 1) { retain(o); nreg.push_back(o); nfd.push_back(objs[o].fd0); ++C.config_added; }   // the notifier holds one more reference
+			else if (no->_fdused != used) return fail("wrong-target", "notifier input count changed unexpectedly");
+			else { ++C.refused; ++C.config_refused; nontrivial = true; }   // refused: no reference may stay behind
+			break; }
+		case M_NFINI: {
+			sig = "notify_fini|registered";
+			LIB((mpt::mpt_notify_fini(no), 0));
+			std::vector<int> h; h.swap(nreg); nfd.clear();
+			for (int e : h) release(e);
 			break; }
 		}
 		if (!checkall()) return false;
@@ -1066,10 +1218,24 @@ struct MetaSys : World {
 		for (size_t o = 0; o < objs.size(); ++o) if (!objs[o].dead && objs[o].phantom) {
 			unpreset((int) o);
 		}
-		if (usable(grpo)) {
-			dstep = "dropping the item group (object #%d)"; darg = grpo;
-			LIB((((metatype *) objs[grpo].ptr)->unref(), 0));
-			release(grpo);
+		if (no && !nreg.empty()) {
+			dstep = "finishing the notifier (%d inputs)"; darg = (int) nreg.size();
+			LIB((mpt::mpt_notify_fini(no), 0));
+			std::vector<int> h; h.swap(nreg); nfd.clear();
+			for (int e : h) release(e);
+			if (!checkall()) return false;
+		}
+		if (no) LIB((mpt::mpt_notify_fini(no), 0));
+		for (int a = 1; a >= 0; --a) if (usable(rao[a])) {
+			dstep = "destroying reference array %d"; darg = a;
+			LIB((delete rap(a), 0));
+			release(rao[a]);
+			if (!checkall()) return false;
+		}
+		for (int g = 1; g >= 0; --g) if (usable(grpidx(g))) {
+			dstep = "dropping item group %d"; darg = g;
+			LIB((((metatype *) objs[grpidx(g)].ptr)->unref(), 0));
+			release(grpidx(g));
 			if (!checkall()) return false;
 		}
 		if (usable(nodeo)) {
@@ -1266,7 +1432,7 @@ static bool configure(const std::string &job, Tier tier)
 	cfg = Cfg();
 	cfg.name = job;
 	cfg.nslots = 3; cfg.cap = 3; cfg.rawcap = tier == Quick ? 1 : 2;
-	cfg.conv = cfg.cxx = cfg.traits = cfg.clone = true; cfg.reply = cfg.refbuf = cfg.genconv = cfg.inref = cfg.group = cfg.rdops = false;
+	cfg.conv = cfg.cxx = cfg.traits = cfg.clone = true; cfg.reply = cfg.refbuf = cfg.genconv = cfg.inref = cfg.group = cfg.rdops = cfg.rarr = cfg.notify = false;
 	std::vector<OpDef> &o = cfg.ops;
 	int S = cfg.nslots;
 	if (job == "buffer" || job == "buffer:typed") {
@@ -1300,10 +1466,12 @@ static bool configure(const std::string &job, Tier tier)
 	else if (k == "refarray") { cfg.kinds = {K_CNT, K_GENINFO}; cfg.refbuf = true; cfg.nslots = S = 2; cfg.cap = 2; cfg.rawcap = 1; cfg.cxx = false; cfg.traits = false; cfg.clone = false; cfg.conv = false; }
 	else if (k == "inputref") { cfg.kinds = {K_STREAM}; cfg.inref = cfg.refbuf = true; cfg.nslots = S = 2; cfg.cap = 2; cfg.rawcap = 1; cfg.cxx = false; cfg.clone = false; cfg.conv = false; }
 	else if (k == "group") { cfg.kinds = {K_CNT, K_CXX}; cfg.group = true; cfg.nslots = S = 2; cfg.cap = 2; cfg.rawcap = tier == Quick ? 1 : 2; cfg.cxx = false; cfg.clone = false; cfg.conv = false; }
+	else if (k == "cxxarray") { cfg.kinds = {K_CNT, K_CXX}; cfg.rarr = true; cfg.nslots = S = 2; cfg.cap = 2; cfg.rawcap = 2; cfg.cxx = false; cfg.clone = false; cfg.conv = false; }
+	else if (k == "notify") { cfg.kinds = {K_STREAM}; cfg.notify = true; cfg.nslots = S = 2; cfg.cap = 2; cfg.rawcap = 1; cfg.cxx = false; cfg.clone = false; cfg.conv = false; }
 	else if (k == "mixed") { cfg.kinds = {K_GENINFO, K_RAW, K_REPLY, K_CXX}; cfg.cxx = false; cfg.traits = false; cfg.clone = false; }
 	else return false;
 	// two raw references per object only where the closed state space stays small; the other jobs close with one
-	if (!(k == "counting" || k == "geninfo" || k == "metabuffer" || k == "reply")) cfg.rawcap = 1;
+	if (!(k == "counting" || k == "geninfo" || k == "metabuffer" || k == "reply" || k == "cxxarray")) cfg.rawcap = 1;
 	for (int kind : cfg.kinds) { add_ops(o, M_NEW, S, 0, 0); for (size_t i = o.size() - S; i < o.size(); ++i) o[i].b = kind;
 		if (kpokeable(kind)) { add_ops(o, M_NEW, S, 0, 1); for (size_t i = o.size() - S; i < o.size(); ++i) o[i].b = kind; }
 		// the kinds counted through the C++ refcount wrappers also start at 2^32+1
@@ -1316,24 +1484,27 @@ static bool configure(const std::string &job, Tier tier)
 	if (cfg.clone) add_ops(o, M_CLONE, S, S);
 	if (cfg.reply) { add_ops(o, M_ARM, S, 0); add_ops(o, M_DEFER, S, 0); add_ops(o, M_DREPLY, 2, 3); add_ops(o, M_CREPLY, S, 0); }
 	if (cfg.rdops) { add_ops(o, M_RDADVANCE, S, 0); add_ops(o, M_RDMODIFY, S, 0); }
-	if (cfg.group) { add_ops(o, M_NODEASSIGN, S, 0); add_ops(o, M_NODESET, 6, 0); add_ops(o, M_NODEDROP, 1, 0); add_ops(o, M_ADDITEMS, 1, 0); add_ops(o, M_GRPAPPEND, 6, 0); add_ops(o, M_GRPCLEAR, 1, 0); add_ops(o, M_GRPDROP, 1, 0); }
+	if (cfg.group) { add_ops(o, M_NODEASSIGN, S, 0); add_ops(o, M_NODESET, 6, 0); add_ops(o, M_NODEDROP, 1, 0); add_ops(o, M_ADDITEMS, 1, 0); add_ops(o, M_GRPAPPEND, 6, 0); add_ops(o, M_GRPCLEAR, 2, 0); add_ops(o, M_GRPDROP, 2, 0); add_ops(o, M_GRPCLONE, 1, 0); add_ops(o, M_GRPCLEARREF, 2, 4); }
+	if (cfg.rarr) { add_ops(o, M_RAINSERT, 4, 0); add_ops(o, M_RACOPY, 1, 0); add_ops(o, M_RASET, 2, 4); add_ops(o, M_RACLEAR, 2, 0); add_ops(o, M_RACLEARREF, 2, 4); add_ops(o, M_RACOMPACT, 2, 0); add_ops(o, M_RADROP, 2, 0); }
+	if (cfg.notify) { add_ops(o, M_NADD, 4, 0); add_ops(o, M_NCLEAR, 4, 0); add_ops(o, M_NWAIT, 1, 0); add_ops(o, M_NNEXT, 1, 0); add_ops(o, M_NCONFIG, S, 0); add_ops(o, M_NFINI, 1, 0); }
 	if (cfg.refbuf) { add_ops(o, M_RBPUT, S, 0); add_ops(o, M_RBCLONE, 2, 2); add_ops(o, M_RBCLEAR, 2, 0); add_ops(o, M_RBDETACH, 2, 0); if (!cfg.traits) add_ops(o, M_RFINI, S, 0); }
 	return true;
 }
 
 void mc_jobs(Tier t, std::vector<std::string> &jobs)
 {
+	if (getenv("C15_ONLY")) { jobs.push_back(getenv("C15_ONLY")); return; }   // DEV-ONLY
 	jobs.push_back("refcount");
 	jobs.push_back("buffer");
 	jobs.push_back("buffer:typed");
-	for (const char *k : {"counting", "geninfo", "metabuffer", "rawdata", "rawdata-stages", "iobuffer", "generic", "cxxtype", "stream", "reply", "refarray", "inputref", "group", "mixed"}) jobs.push_back(std::string("meta:") + k);
+	for (const char *k : {"counting", "geninfo", "metabuffer", "rawdata", "rawdata-stages", "iobuffer", "generic", "cxxtype", "stream", "reply", "refarray", "inputref", "group", "cxxarray", "notify", "mixed"}) jobs.push_back(std::string("meta:") + k);
 }
 
 static void flush_counters(Run &r)
 {
 	r.count("nontrivial", C.nontrivial); r.count("refused", C.refused); r.count("at_counter_limit", C.limit); r.count("held_reference_replaced", C.replaced);
 	r.count("op_on_shared_object", C.shared_op); r.count("transitions_with_destroyed_object", C.destroyed); r.count("clone_of_nonclonable", C.nonclonable);
-	r.count("cxx_assign_unretainable_clears_target(not flagged)", C.cleared); r.count("spurious_refusals(not flagged)", C.spurious); r.count("states_drained_to_quiescence", C.drained); r.count("refused_write_on_shared_buffer", C.refused_shared); r.count("clone_between_different_content_traits", C.traits_mismatch); r.count("replies_through_held_context_checked", C.reply_checked); r.count("group_items_taken", C.group_items); r.count("drained_states_with_no_block_left", C.quiescent);
+	r.count("cxx_assign_unretainable_clears_target(not flagged)", C.cleared); r.count("spurious_refusals(not flagged)", C.spurious); r.count("states_drained_to_quiescence", C.drained); r.count("refused_write_on_shared_buffer", C.refused_shared); r.count("clone_between_different_content_traits", C.traits_mismatch); r.count("replies_through_held_context_checked", C.reply_checked); r.count("group_items_taken", C.group_items); r.count("drained_states_with_no_block_left", C.quiescent); r.count("container_copies(group clone, reference_array copy)", C.container_copies); r.count("notify_next_handles_checked", C.next_handles); r.count("notify_config_registered", C.config_added); r.count("notify_config_refused", C.config_refused);
 	r.count("alloc_dealloc_mismatch_reports(out of scope, not flagged)", g_mismatch);
 }
 
@@ -1348,7 +1519,7 @@ void mc_explore(Run &r, const std::string &job)
 		return;
 	}
 	if (!configure(job, r.tier)) { r.incomplete("unknown job " + job); return; }
-	for (const char *k : {"held_reference_replaced", "at_counter_limit", "refused", "transitions_with_destroyed_object", "states_drained_to_quiescence", "op_on_shared_object", "clone_of_nonclonable", "replies_through_held_context_checked", "group_items_taken", "drained_states_with_no_block_left"}) r.require(k);
+	for (const char *k : {"held_reference_replaced", "at_counter_limit", "refused", "transitions_with_destroyed_object", "states_drained_to_quiescence", "op_on_shared_object", "clone_of_nonclonable", "replies_through_held_context_checked", "group_items_taken", "drained_states_with_no_block_left", "container_copies(group clone, reference_array copy)", "notify_next_handles_checked", "notify_config_registered", "notify_config_refused"}) r.require(k);
 	if (job.compare(0, 6, "buffer") == 0) { r.require("refused_write_on_shared_buffer"); if (job != "buffer") r.require("clone_between_different_content_traits"); explore<BufSys>(r, cfg.depth); } else explore<MetaSys>(r, cfg.depth);
 	flush_counters(r);
 }
